@@ -507,6 +507,8 @@ type LoopSpec struct {
 	Func       string
 	Ordinal    int
 	Invariants []*Clause
+	// StepChecks are proved at every back edge (end of each iteration incl. continue) and never assumed
+	StepChecks []*Clause
 	Uses       []*Expr
 }
 
@@ -567,7 +569,7 @@ func newSpecs() *Specs {
 
 var clauseKw = map[string]bool{"func": true, "loop": true, "spec": true, "lemma": true, "props": true, "requires": true,
 	"ensures": true, "modifies": true, "invariant": true, "inline": true, "trusted": true, "pure": true, "allocates": true,
-	"nosafety": true, "use": true, "end": true, "plain": true, "assume": true, "check": true, "decreases": true, "assert": true}
+	"nosafety": true, "use": true, "end": true, "plain": true, "assume": true, "check": true, "decreases": true, "assert": true, "stepcheck": true}
 
 // loadSpecFile parses one contract file. pkg is the package key the file belongs to.
 func (sp *Specs) loadSpecFile(path, pkg string, trustedFile bool) error {
@@ -654,7 +656,7 @@ func (sp *Specs) loadSpecFile(path, pkg string, trustedFile bool) error {
 			} else if curLemma != nil {
 				curLemma.Props = ps
 			}
-		case "requires", "ensures", "invariant", "check":
+		case "requires", "ensures", "invariant", "check", "stepcheck":
 			cl, err := parseClause(rest)
 			if err != nil {
 				return fail(err)
@@ -663,6 +665,8 @@ func (sp *Specs) loadSpecFile(path, pkg string, trustedFile bool) error {
 			switch {
 			case kw == "invariant" && curLoop != nil:
 				curLoop.Invariants = append(curLoop.Invariants, cl)
+			case kw == "stepcheck" && curLoop != nil:
+				curLoop.StepChecks = append(curLoop.StepChecks, cl)
 			case kw == "requires" && cur != nil:
 				cur.Requires = append(cur.Requires, cl)
 			case kw == "ensures" && cur != nil:
